@@ -59,10 +59,12 @@ def _strategy(draw):
         mode = draw(st.sampled_from(["c", "c", "mc"]))
     spec["coords"] = draw(c03.supplied_coords(spec, opts["box"], mode=mode, nres=nres,
                                               skip=opts.get("build_res", ())))
-    if mode == "c" and ignore is None and not opts.get("build_res") and draw(st.integers(0, 4)) == 0:
-        # -split together with a start structure: the residues are split first, the supplied atoms keep
-        # their coordinates all the same
-        cands = sorted({r["resname"]: r for mt in spec["moltypes"] for r in mt["residues"] if len(r["atoms"]) >= 2}.items())
+    if mode == "c" and ignore is None and not opts.get("build_res") and nres == total and draw(st.integers(0, 1)) == 0:
+        # -split together with a complete start structure: the residues are split first, the supplied atoms
+        # keep their coordinates all the same (with a partial structure the closely spaced atoms of a split
+        # residue leave no room for the next residue and the builder retries for ever)
+        cands = sorted({r["resname"]: r for mt in spec["moltypes"] for r in mt["residues"]
+                        if len(r["atoms"]) >= 2 and r["vs"] is None}.items())
         if cands:
             resname, rd = draw(st.sampled_from(cands))
             cut = draw(st.integers(1, len(rd["atoms"]) - 1))
@@ -85,6 +87,11 @@ def _strategy(draw):
         opts["maxiter"] = draw(st.sampled_from([0, 1, 2]))
     else:
         spec["fail_pattern"] = [draw(st.integers(0, 3)) == 0 for _ in range(draw(st.integers(0, 16)))]
+    if opts.get("split"):
+        # no injected failures together with -split (attempt limits of 0-2 and a split residue graph can leave
+        # the builder retrying for ever on the pinned tree - a liveness matter, outside this property)
+        spec["fail_pattern"] = []
+        opts.pop("maxiter", None)
     return spec
 
 
